@@ -557,6 +557,12 @@ func (c *FnCtx) trCall(e *Expr, env *Env) (Term, types.Type) {
 		}
 		sites := c.callRes[e.Args[0].Name]
 		if site >= len(sites) || ri >= len(sites[site].res) {
+			// the call has not happened (yet) at this point: its "result" is an arbitrary value, so
+			// nothing can be concluded from it and an assertion that needs it fails
+			if fn := c.g.funcs[e.Args[0].Name]; fn != nil && ri < fn.Signature.Results().Len() {
+				ty := fn.Signature.Results().At(ri).Type()
+				return c.freshConst("nocall", c.sortOf(ty)), ty
+			}
 			c.specFail("result_of: %s has %d call sites here", e.Args[0].Name, len(sites))
 		}
 		return sites[site].res[ri], sites[site].types[ri]
